@@ -112,6 +112,12 @@ def main():
     ns = sum(1 for r in results if r["kind"] == "silent")
     print(f"regress: {nf} must-fire ({sum(1 for r in results if r['kind'] == 'fire' and r['ok'])} ok), "
           f"{ns} must-stay-silent ({sum(1 for r in results if r['kind'] == 'silent' and r['ok'])} ok) in {time.time() - t0:.0f}s")
+    try:
+        sys.path.insert(0, os.path.join(HERE, "lib"))
+        import extract
+        extract.gc_target(1800)        # scratch copies' artefacts in the shared target directory
+    except Exception:
+        pass
     return 1 if bad else 0
 
 
